@@ -6,6 +6,8 @@
 //!        BU <cap|d> <q0|q1> <ops>      BufferedUdpMetricSink (d = default capacity)
 //!        BX <cap|d> <q0|q1> <ops>      BufferedUnixMetricSink
 //!        UA <naddrs> <ops>             UdpMetricSink::from(&[SocketAddr][..]) with 0, 1 or 2 addresses
+//!        XS - q0 <ops> / BXS <cap|d> q0 <ops>   Unix sinks given a SYMLINK path; op `m` re-points the link to a second listener
+//!                                      (observation: D = first listener's datagrams then the second's, |P:<how many at the first>)
 //!        ST <threads> <updates>        SocketStats::update hammered from several threads
 //!        UC <threads> <emits>          one UdpMetricSink shared by several emitting threads
 //!        SU <updates>                  SocketStats::update called with explicit results: comma list of
@@ -344,6 +346,81 @@ pub fn run_case(line: &str) -> String {
                 }
             }
             format!("S:{}|W:{}.{}.{}.{}", stats_str(&got), bs, ps, bd, pd)
+        }
+        "XS" | "BXS" => {
+            // the path given to the sink is a symbolic link that is re-pointed (atomically) to another listener by op `m`:
+            // the sink must follow the path it was given, not what the path resolved to when it was built
+            let n = COUNTER.fetch_add(1, Ordering::Relaxed);
+            let base = std::env::var("VERIF_TMP").unwrap_or_else(|_| "/tmp".to_string());
+            let dir = PathBuf::from(format!("{}/cadence-verif-ln-{}-{}", base, std::process::id(), n));
+            let _ = std::fs::remove_dir_all(&dir);
+            std::fs::create_dir_all(&dir).expect("mkdir");
+            let (pa, pb, pl) = (dir.join("a.sock"), dir.join("b.sock"), dir.join("l.sock"));
+            let ra = UnixDatagram::bind(&pa).expect("bind a");
+            let rb = UnixDatagram::bind(&pb).expect("bind b");
+            ra.set_nonblocking(true).unwrap();
+            rb.set_nonblocking(true).unwrap();
+            std::os::unix::fs::symlink(&pa, &pl).expect("symlink");
+            let send = UnixDatagram::unbound().expect("unbound");
+            let sink: Box<dyn MetricSink + Send + Sync + RefUnwindSafe> = if t[0] == "XS" {
+                Box::new(UnixMetricSink::from(&pl, send))
+            } else {
+                match cap_of(t[1]) {
+                    None => Box::new(BufferedUnixMetricSink::from(&pl, send)),
+                    Some(c) => Box::new(BufferedUnixMetricSink::with_capacity(&pl, send, c)),
+                }
+            };
+            let mut res = vec![];
+            let (mut ga, mut gb): (Vec<Vec<u8>>, Vec<Vec<u8>>) = (vec![], vec![]);
+            let mut seen = vec![];
+            let mut buf = vec![0u8; 70_000];
+            let mut pull = |ga: &mut Vec<Vec<u8>>, gb: &mut Vec<Vec<u8>>| {
+                while let Ok(k) = ra.recv(&mut buf) {
+                    ga.push(buf[..k].to_vec());
+                }
+                while let Ok(k) = rb.recv(&mut buf) {
+                    gb.push(buf[..k].to_vec());
+                }
+            };
+            for op in t[3].split(',') {
+                match &op[..1] {
+                    "E" => {
+                        let m = String::from_utf8(unhex(&op[1..])).expect("utf8");
+                        res.push(match sink.emit(&m) {
+                            Ok(k) => format!("k{}", k),
+                            Err(_) => "e".to_string(),
+                        });
+                    }
+                    "F" => res.push(match sink.flush() {
+                        Ok(()) => "k0".to_string(),
+                        Err(_) => "e".to_string(),
+                    }),
+                    "m" => {
+                        let tmp = dir.join("l.tmp");
+                        let _ = std::fs::remove_file(&tmp);
+                        std::os::unix::fs::symlink(&pb, &tmp).expect("symlink b");
+                        std::fs::rename(&tmp, &pl).expect("rename");
+                        res.push("-".to_string());
+                    }
+                    _ => panic!("bad op {}", op),
+                }
+                pull(&mut ga, &mut gb);
+                seen.push((ga.len() + gb.len()).to_string());
+            }
+            let st = sink.stats();
+            drop(sink);
+            pull(&mut ga, &mut gb);
+            let _ = std::fs::remove_dir_all(&dir);
+            let at_a = ga.len();
+            ga.extend(gb);
+            format!(
+                "R:{}|D:{}|S:{}|N:{}|P:{}",
+                res.join(","),
+                ga.iter().map(|d| hex(d)).collect::<Vec<_>>().join(";"),
+                stats_str(&st),
+                seen.join(","),
+                at_a
+            )
         }
         "SU" => {
             let stats = SocketStats::default();
